@@ -175,7 +175,9 @@ def end_to_end(b, Y, free, cs):
             return basis_R[k][q // 2]
         return sp.Symbol(f"SOL_{layer}_{k}_{slice_}_{q // 2}")
     try:
-        ex, paths, cfg = SM.run_solver(b, ["Ssi"], solve_for=("tidal",), nondim=False, analytic=True, sol_contract=sol, slices_per_layer=ns)
+        # real_driver=False: the driver rejects static + incompressible for the innermost layer (see assumptions); the run exercises the surface system,
+        # collapse and Love-number plumbing of the real solver on the exactly solvable limit case
+        ex, paths, cfg = SM.run_solver(b, ["Ssi"], solve_for=("tidal",), nondim=False, analytic=True, sol_contract=sol, slices_per_layer=ns, real_driver=False)
     except SymExError as e:
         b.subset_exits.append(f"{KEY} [kelvin end-to-end]: {e}")
         return
